@@ -59,6 +59,35 @@ CLAIMED = {
             "and the closed-form duties are evaluated in coqc on every DI target's own table (stage and end-to-end).",
             "Open finding D39 (slope bound of gliding utilities: H_ut > H_np, refuted-theorem witness). hut_model = closed form at rows is "
             "evaluated per case, not proved."),
+    "C07": ("DESIGN.md 8/C07",
+            "Theorems (closed): the pocket sweep terminates on every table (distance to the pinch shrinks in every iteration, across "
+            "insertions), its interpolation is never degenerate; on Robust curves with a pinch the code-shaped index model equals a functional "
+            "(zipper) sweep whose H_net_np, as a piecewise-linear function, equals at EVERY temperature the running minimum of the input GCC "
+            "towards the far end of its side (0 between the pinches); rows and ends keep Qh and Qc; the spec is the greatest monotone function "
+            "under the GCC; load profiles are monotone, zero at the pinch side and end at Qh / Qc. Tie: get_GCC_without_pockets, "
+            "get_additional_GCCs and the load profiles compared column by column in coqc on random and (thorough) ALL curves of <= 7 rows "
+            "over 5 levels, plus the running-minimum predicate evaluated on the implementation's own output at rows and midpoints.",
+            "Robust hypothesis (robust_b, decidable; tolerance ties skipped as fragile); float rounding compared at 1e-9; insertion modelled "
+            "for one temperature and three columns (general insert = C08); 'no extra breakpoints' checked on outputs only."),
+    "C13": ("DESIGN.md 8/C13",
+            "Theorems (closed): emitted composite and grand-composite points are rounded table rows in table order; display rounding error "
+            "<= 0.005 (instantiated at the generated DECIMAL_PLACES; breaks if lowered); only flat ends are trimmed, first/last non-flat rows "
+            "kept, exactly collinear drops leave the piecewise-linear curve unchanged; segments partition the curve, share end points and "
+            "carry the sign-based classification. The recovery clause for real tables, extents (= Qh, Qc, duties) and 'one graph set per "
+            "record keyed by its name with the documented graph types' are evaluated in coqc on every record x graph x column of every "
+            "generated problem and option combination; constants (loop bounds, rounding, isclose rtol, comparison operators) regenerated.",
+            "Open findings D16, D45, D46, D49; graph tables are taken as the reference (their own faithfulness is C05); float rounding not "
+            "proved (dyadic inputs + fragile verdicts)."),
+    "C17": ("DESIGN.md 8/C17",
+            "Theorems (closed) for all curves, sizes and eps >= 0: RDP always returns (fuel suffices), keeps both ends, returns an in-order "
+            "subsequence, every original point is kept or within eps of the chord between two consecutive kept points (to the segment for "
+            "monotone curves); with <= 10 kept points the public function equals RDP whatever the optimiser does; redundant-point removal "
+            "returns a subsequence, trims only flat ends, keeps the end points, and is exact when every dropped row lies on the kept "
+            "polyline. Refuted with witnesses replayed on the code: the 1e-6 bound in general (D16), the one-sided eps/10 bound (D17), "
+            "relative-tolerance trimming (D45), variance early return (D46). Tie: _rdp, get_piecewise_data_points and clean_* compared with "
+            "the model in coqc on random polylines (2-500 points, plateaus, vertical steps, repeats, both orientations) and the deviation / "
+            "one-sidedness predicates evaluated on the implementation's outputs.",
+            "SLSQP refinement is an oracle (only 'ends fixed' proved; D47, D48 open); _rdp modelled for eps >= 0; float rounding not proved."),
     "C08": ("DESIGN.md 8/C08",
             "Theorems (closed) for every table with rows more than tol apart and every request list or history of lists: every populated "
             "interpolated column is the same piecewise-linear function at every temperature; NaN columns stay NaN (cell rule proved); rows stay "
